@@ -51,6 +51,8 @@ func init() {
 	controlTable["ord-maprange-escape"] = ordCtl("OrdMapRangeEscape", true)
 	controlTable["ord-mapkeys-concat"] = ordCtl("OrdMapKeysConcat", true)
 	controlTable["ord-firstwins"] = ordCtl("OrdFirstWins", true)
+	controlTable["ord-builder-loop"] = ordCtl("OrdBuilderLoop", true)
+	controlTable["ord-builder-callee"] = ordCtl("OrdBuilderCallee", false)
 	controlTable["ord-clean"] = ordCtl("OrdClean", false)
 }
 
